@@ -7,3 +7,30 @@ package account
 //@ func (*Manager).GetAccount   pure trusted
 //@   opt heap-independent
 //@   ensures result != nil && result.GetAddress() == address
+
+// ---------------------------------------------------------------------------------------------------------------------
+// C07: the journal.  Undoing a change log must also take back the provisional version it consumed: after RevertToSnapshot the
+// next-version counter of every (account, log type) touched by an undone log is below that log's version, so that later writes
+// continue the version sequence without a gap (a gap makes the NEXT revert panic with ErrWrongChangeLogVersion).
+// Undo of one log (dispatch through the per-type table in chain/types; the individual undo functions are not under contract
+// here): assumed to leave the journal itself and the version counters alone.
+// one raw account object per address (the manager's cache): assumed
+//@ spec func acctAddr(a *Account) common.Address
+// every account owns its version-counter map (made in NewAccount, never shared or replaced): assumed
+//@ spec func recOwner(m map[types.ChangeLogType]uint32) *Account
+//@ func (RawAccountLoader).getRawAccount   pure trusted
+//@   opt heap-independent
+//@   ensures result != nil && allocated(result) && acctAddr(result) == address && recOwner(result.newestRecords) == result
+
+//@ spec func ctr(h *LogProcessor, l *types.ChangeLog) uint32 = h.accountLoader.getRawAccount(l.Address).newestRecords[l.LogType]
+//@ func (*LogProcessor).RevertToSnapshot
+//@   props C07
+//@   requires h != nil && h.accountLoader != nil && forall(i, 0, len(h.changeLogs), h.changeLogs[i] != nil && h.accountLoader.getRawAccount(h.changeLogs[i].Address).newestRecords != nil) && forall(i, 0, len(h.revisions), 0 <= h.revisions[i].journalIndex && h.revisions[i].journalIndex <= len(h.changeLogs))
+//@   ensures len(h.changeLogs) <= old(len(h.changeLogs))
+//@   ensures forall(i, len(h.changeLogs), old(len(h.changeLogs)), h.accountLoader.getRawAccount(old(h.changeLogs[i]).Address).newestRecords[old(h.changeLogs[i]).LogType] < old(h.changeLogs[i]).Version)
+//@   invariant @loop 0: snapshot >= 0 && snapshot <= len(h.changeLogs) && i >= snapshot - 1 && i < len(h.changeLogs) && sameSlice(h.changeLogs, old(h.changeLogs)) && lastVersions != nil && fresh(lastVersions) && h.accountLoader == old(h.accountLoader) && idx < len(h.revisions) && 0 <= idx
+//@   invariant @loop 0: forall(k, 0, len(h.changeLogs), h.changeLogs[k] != nil && h.changeLogs[k] == old(h.changeLogs[k]) && h.changeLogs[k].Address == old(h.changeLogs[k].Address) && h.changeLogs[k].LogType == old(h.changeLogs[k].LogType) && h.changeLogs[k].Version == old(h.changeLogs[k].Version) && h.accountLoader.getRawAccount(h.changeLogs[k].Address).newestRecords != nil)
+//@   invariant @loop 0: forallKeys(a, lastVersions, lastVersions[a] != nil && fresh(lastVersions[a]) && forallKeys(t, lastVersions[a], lastVersions[a][t] >= 1 && h.accountLoader.getRawAccount(a).newestRecords[t] == lastVersions[a][t] - 1))
+//@   invariant @loop 0: forallKeys(a, lastVersions, forallKeys(b, lastVersions, a != b ==> lastVersions[a] != lastVersions[b]))
+//@   invariant @loop 0: forall(k, i + 1, len(h.changeLogs), has(lastVersions, h.changeLogs[k].Address) && has(lastVersions[h.changeLogs[k].Address], h.changeLogs[k].LogType) && h.changeLogs[k].Version >= lastVersions[h.changeLogs[k].Address][h.changeLogs[k].LogType])
+//@   invariant @loop 0: forall(k, i + 1, len(h.changeLogs), ctr(h, h.changeLogs[k]) < h.changeLogs[k].Version)
